@@ -9,6 +9,7 @@ import (
 	"verif/harness/props/c04"
 	"verif/harness/props/c05"
 	"verif/harness/props/c06"
+	"verif/harness/props/c14"
 	"verif/harness/props/c17"
 	"verif/harness/props/c18"
 )
@@ -22,6 +23,7 @@ func Specs() map[string]*core.Spec {
 		c04.Spec(),
 		c05.Spec(),
 		c06.Spec(),
+		c14.Spec(),
 		c17.Spec(),
 		c18.Spec(),
 	} {
